@@ -382,9 +382,34 @@ def check_hkdf(ck_ob, mod, label):
     hdr = f.loops[0]["header"]
     ptrs = [f.insts[i] for i in f.blocks[hdr].insts if f.insts[i].op == "phi" and (f.insts[i].get("ty") or "").endswith("*")]
     ints = [f.insts[i] for i in f.blocks[hdr].insts if f.insts[i].op == "phi" and not (f.insts[i].get("ty") or "").endswith("*")]
+    # "avoid the double copy": whole blocks finalised straight into the caller's buffer, with a loop-carried pointer to the previous block
+    # (first the state's block buffer, then the block just written).  The pointer has two symbolic forms; the generic iteration is
+    # evaluated once per form, and what the original gets from "every block goes through the state's buffer" becomes obligations:
+    # the block is chained from where that pointer points, the pointer is left pointing at the block just generated, and whenever the
+    # function returns the state's buffer holds the last block (the next call chains from it and serves its left-over bytes)
+    prevphi = None
+    want_prev = Lf({ST: 1, 1: OUTF}) if OUTF else Lf.s(ST)
+    if len(ptrs) == 2 and len(ints) == 1:
+        ent_ = [p for p in ps if p.end[0] == "loop-entry" and p.end[1] == hdr]
+        cands = [P for P in ptrs if ent_ and all(p.env.get(("init", P.id)) == want_prev for p in ent_)]
+        if len(cands) == 1:
+            prevphi = cands[0]
+            ptrs = [P for P in ptrs if P is not prevphi]
     if len(ptrs) != 1 or len(ints) != 1:
         raise Broken("tinyjambu_hkdf_expand: expected an output cursor and a remaining length at the loop head")
     cur, rem = ("hdp", ptrs[0].id), ("hd", ints[0].id)
+    if prevphi is not None:
+        forms = {"state": want_prev, "caller": Lf({cur: 1, 1: -32})}
+        merged = [p for p in ps if not (p.blocks and p.blocks[0] == hdr and not [e for e in p.events if e[0] == "class" and e[1] == "start"])]
+        for fname_, lf_ in forms.items():
+            ex_f = irx.Exec(f, Handler(), havoc="auto", auto=True, int_cells=icells, starts=starts[:1], split_max=33, head_consts={prevphi.id: lf_})
+            for q in ex_f.run(max_paths=6000):
+                if q.blocks and q.blocks[0] == hdr and not [e for e in q.events if e[0] == "class" and e[1] == "start"]:
+                    q.prevform = fname_
+                    q.ex = ex_f
+                    merged.append(q)
+        ps = merged
+        no_data_branches(f, ps)
 
     def c(rule, cond, construct, ok_, bad_, where=None):
         return ck_ob(cond, rule, f.name, "%s[%s]" % (construct, label), ok_, bad_, where or w0)
@@ -449,6 +474,19 @@ def check_hkdf(ck_ob, mod, label):
             cnt0 = Lf.s(("fld", ST, CNT, p.objgen.get(ST, 0)))
         cntc = ex.subst(p, cnt0).const()
         rv = ex.subst(p, p.end[1]).const() if (p.end[0] == "ret" and p.end[1] is not None and not is_word(p.end[1])) else None
+        pform = getattr(p, "prevform", None)
+        if pform is not None:
+            ex = p.ex
+        if pform == "caller" and p.end[0] == "ret" and not ev and not var and rv == 0 and not [k_ for k_ in outs if k_[0] != ST]:
+            # nothing left to generate, and the last block went straight to the caller: the state's buffer must be brought up to date now
+            seen_iter.add("done")
+            last = tuple(tuple(hashbyte(p, cur, -32 + i)) for i in range(32))
+            now = tuple(tuple(mem_now(p, ST, OUTF + i)) for i in range(32))
+            c("SEQ", now == last, "block-kept(return after a whole block)", "the last whole block, written straight to the caller's buffer, is copied into the state's block buffer before the call returns",
+              "a call that ends right after a whole block generated into the caller's buffer returns without storing that block in the state: the next call chains T(n+1) from a stale block (first byte that differs: %s)"
+              % first_byte_diff(now, last))
+            n += 1
+            continue
         if p.end[0] == "ret" and not ev and not var and rv == 0 and not outs:
             seen_iter.add("done")
             continue   # remaining == 0: loop not entered
@@ -477,13 +515,18 @@ def check_hkdf(ck_ob, mod, label):
         c("SEQ", okA, "block-key(%s)" % ("first" if first else "next"), "T(n) is keyed with PRK (32 bytes)", "hmac_init is not keyed with the 32-byte PRK: %s" % (ev[0][3],))
         k = 1
         if not first:
-            okP = ev[1][3] == (H, repr(Lf({ST: 1, 1: OUTF})), "32") and ev[1][4] == out0
-            c("SEQ", okP, "block-prev", "T(n-1) (the previous 32-byte block) is absorbed first for n > 1", "previous block not absorbed as specified: %s" % (ev[1][3],))
+            if pform == "caller":
+                okP = ev[1][3] == (H, repr(Lf({cur: 1, 1: -32})), "32") and ev[1][4] == tuple(tuple(hashbyte(p, cur, -32 + i)) for i in range(32))
+            else:
+                okP = ev[1][3] == (H, repr(Lf({ST: 1, 1: OUTF})), "32") and ev[1][4] == out0
+            c("SEQ", okP, "block-prev" + ("" if pform is None else "{%s}" % pform), "T(n-1) (the previous 32-byte block) is absorbed first for n > 1", "previous block not absorbed as specified: %s" % (ev[1][3],))
             k = 2
         okI = ev[k][3] == (H, INFO, INFOLEN)
         cell = gf2.sym_word(("lfcell", repr(ex.subst(p, cnt0))), 8) if cntc is None else gf2.const_word(cntc, 8)
         okC = ev[k + 1][3][0] == H and ev[k + 1][3][1] == repr(Lf({ST: 1, 1: CNT})) and ev[k + 1][3][2] == "1" and ev[k + 1][4] == (tuple(cell),)
-        okF = ev[k + 2][3] == (H, ev[0][3][1], "32", repr(Lf({ST: 1, 1: OUTF}))) and ev[k + 3][3] == (H,)
+        tgt_ = ev[k + 2][3][3] if len(ev[k + 2][3]) > 3 else None
+        direct = prevphi is not None and tgt_ == repr(Lf.s(cur))
+        okF = ev[k + 2][3][:3] == (H, ev[0][3][1], "32") and (tgt_ == repr(Lf({ST: 1, 1: OUTF})) or direct) and ev[k + 3][3] == (H,)
         c("SEQ", okI and okC and okF, "block-body(%s)" % ("first" if first else "next"), "then info, then the one-byte counter n (before it is incremented); result -> the block buffer; HMAC state freed",
           "block body differs: info %s, counter byte %s (data %s), finalize %s" % (ev[k][3], ev[k + 1][3], ev[k + 1][4], ev[k + 2][3]))
         # counter increment (mod 256)
@@ -497,6 +540,22 @@ def check_hkdf(ck_ob, mod, label):
           "block counter after a block is %s (from %s): not an 8-bit increment by one, the 255-block limit is not enforced" % (newc, cnt0))
         # copy out min(32, remaining) bytes of the new block
         mac = bytes_sym("MAC", ev[k + 2][1], 32)
+        if prevphi is not None:
+            now = tuple(tuple(mem_now(p, ST, OUTF + i)) for i in range(32))
+            if p.end[0] == "ret":
+                c("SEQ", now == mac, "block-kept(%s)" % ("first" if first else "next"), "when the call returns the state's block buffer holds the block just generated",
+                  "the call returns with the state's block buffer not holding the block just generated: the next call chains from / serves a stale block (%s)" % first_byte_diff(now, mac))
+            else:
+                bp = p.env.get(("back", prevphi.id))
+                if bp == want_prev:
+                    held = now
+                elif bp is not None and not is_word(bp) and bp == Lf.s(cur):
+                    held = tuple(tuple(mem_now(p, cur, i)) for i in range(32))
+                else:
+                    raise Broken("tinyjambu_hkdf_expand: the pointer to the previous block is carried on as %s: neither the state's block buffer nor the block just written" % (bp,))
+                c("SEQ", held == mac, "block-chain(%s)" % ("first" if first else "next"), "the pointer to the previous block is left pointing at the block just generated",
+                  "the pointer the next iteration chains from does not point at the block just generated (%s)" % first_byte_diff(held, mac))
+            n += 1
         if p.end[0] == "backedge":
             ln = 32
             okg = any(nm_ is not None and nm_[0] == Lf.s(rem) and nm_[1] in ("uge",) and nm_[2] == 32 for nm_ in [ex._norm(*cc) for cc in p.conds]) or ex._range(p, Lf.s(rem))[0] >= 32
@@ -562,6 +621,15 @@ def _excludes_zero(ex, p, lf):
     if isinstance(syms[0], tuple) and syms[0][0] == "mod":
         tgt = -k0
     return (lo is not None and tgt < lo) or (hi is not None and tgt > hi) or tgt in excl
+
+
+def mem_now(p, obj, off):
+    """byte at (obj, off) at the end of path p"""
+    c_ = p.mem.get((obj, off))
+    if c_ is None:
+        g = p.objgen.get(obj, 0)
+        c_ = gf2.sym_word(("mem", obj, off) if not g else ("mem", obj, off, g), 8)
+    return c_
 
 
 def hashbyte(p, obj, off):
